@@ -792,6 +792,12 @@ def gen_packet(draw, doc, mutate=True, model=None):
     if len(bits) < 48:
         bits = (bits + "0" * 48)[:48]
     mutation = draw(st.sampled_from(MUTATIONS)) if mutate else ("exact", 0)
+    if mutate and len(res.container_ends) >= 2 and draw(st.integers(0, 7)) == 0:
+        # the producer dies exactly where an intermediate container of the inheritance path ends
+        cut = res.container_ends[draw(st.integers(0, len(res.container_ends) - 2))]
+        if cut >= 56:
+            bits = bits[:cut]
+            mutation = ("exact", 0)
     root = [c for c in doc["containers"] if c["name"] == doc["root"]][0]
     length_param = root["entries"][6][1]
     referenced = length_param in referenced_params(doc)
